@@ -327,6 +327,7 @@ for pid, items in (("C05", CMP),):
 
 # parallel ECB with the single-block callee run by its own code (WholeComposePar.v)
 WCP = "WholeComposePar.v"
-for pid, items in (("C07", [(WCP, "ppar128_enc_composed"), (WCP, "ppar64_enc_composed")]),):
+WCD = "WholeComposeDec.v"
+for pid, items in (("C07", [(WCP, "ppar128_enc_composed"), (WCP, "ppar64_enc_composed"), (WCD, "ppar128_dec_composed"), (WCD, "ppar64_dec_composed")]),):
     if pid in PLAN:
-        add_imports(pid, WHI + ["ModelCipher", "ModelCtr", "ProofsCtr", "ProofsApiCtr", "WholeProc", "WholeCtr", "WholeCtrModel", "WholePar", "WholeContracts", "WholeKeyTweak", "WholeCompose", "WholeComposePar"]); PLAN[pid] += items
+        add_imports(pid, WHI + ["ModelCipher", "ModelCtr", "ProofsCtr", "ProofsApiCtr", "WholeProc", "WholeCtr", "WholeCtrModel", "WholePar", "WholeContracts", "WholeKeyTweak", "WholeCompose", "WholeComposePar", "WholeComposeDec"]); PLAN[pid] += items
